@@ -617,3 +617,15 @@ class Bv2IntLink(Lemma):
         c.inputs["G"] = G
         for i in range(0, 22):
             c.prove(f"link-{i}", SBool((z3.IntVal(1 << i) < z3.BV2Int(G, False)) == z3.ULT(BV64(1 << i), G)))
+
+
+@register
+class CompressedMortonCodeSmallGrids(CompressedMortonCode):
+    """the same contract on grids of at most 2^5 chunks per axis: cheap enough to be part of the C04 / C05 checks
+    too (both state their claims in terms of 'the chunk identifier'); the full widths stay under C09"""
+    name = "ShardVolumeSpec.compressed_morton_code[grids to 2^5 per axis]"
+    props = ("C04", "C05")
+    timeout_ms = 120000
+
+    def configs_for(self, tier):
+        return [("code", 5), ("reject", 5)]
